@@ -1130,6 +1130,10 @@ class IRGenerator:
                                   'type explicit, omit Void instead.' %
                                   quote(stone_field.name),
                                   stone_field.lineno, stone_field.path)
+            if stone_field.has_default:
+                raise InvalidSpec('Union member %s cannot have a default.' %
+                                  quote(stone_field.name),
+                                  stone_field.lineno, stone_field.path)
             api_type_field = UnionField(
                 name=stone_field.name, data_type=data_type,
                 doc=stone_field.doc, ast_node=stone_field)
